@@ -73,7 +73,8 @@ def make_spec(rng, gen, kind, nsend=None, fail=None, shape=None):
     nsend = nsend or rng.choice([1, 2, 2, 3, 3])
     sends = []
     for _ in range(nsend):
-        what = rng.choice(["single", "fast", "fast", "fast", "single", "missing", "range", "pgn", "prio"])
+        what = rng.choice(["single", "single", "single", "fast", "fast", "fast", "fast", "fast", "fast", "fast",
+                           "missing", "range", "pgn", "prio"])
         sends.append({"msg": gen.message(rng, what), "what": what,
                       "delay": rng.choice([0, 0, 0, 1, 2, 3, 150])})
     if shape == "two-fast":
@@ -282,7 +283,7 @@ def _specs(ctx, gen, per):
 
 def correspond(ctx):
     gen = Gen()
-    specs = _specs(ctx, gen, ctx.n(35, 400))
+    specs = _specs(ctx, gen, ctx.n(45, 2500))
     judged = run_and_judge(specs)
     ctx._c19_judged = judged
     cases, meta, hung = [], [], []
@@ -328,7 +329,7 @@ def search(ctx):
             if isinstance(c, dict) and "spec" in c:
                 judged += run_and_judge([c["spec"]])
     gen = Gen()
-    extra = _specs(ctx, gen, ctx.n(6, 150))
+    extra = _specs(ctx, gen, ctx.n(6, 1500))
     judged += run_and_judge(extra)
     ctx.notes.append(f"search: {len(judged)} sessions judged by the property's oracle on the real clients")
     out, seen = [], set()
